@@ -242,7 +242,7 @@ fn interface_name<'a>(input: &mut &'a [u8]) -> ModalResult<&'a str, InputError<&
 
         // Must have at least one alphanumeric after dot
         if pos >= input.len() || !input[pos].is_ascii_alphanumeric() {
-            break;
+            return Err(ErrMode::Backtrack(ParserError::from_input(input)));
         }
         pos += 1;
 
